@@ -47,7 +47,7 @@ PROPS = {
     },
     "C03": {
         "level": EXPL,
-        "plan": [{"engine": "shipsim2", "timeout": T_SIM}],
+        "plan": [{"engine": "shipsim2", "perturb": True, "perturb_mode": "1", "perturb_scale": 0.3, "timeout": T_SIM}],
         "rule": "two real endpoints (client/server role) joined by harness FIFO queues in a synctest bubble; configuration grid (trust mode x user "
                 "approve/cancel/never at a seeded virtual time x waiting allowed on either side x known/unknown/wrong SHIP ids) x seeded interleaving of "
                 "deliveries, close propagation and timer expiries; timely mode is checked against the outcome table of DESIGN.md appendix D, arbitrary mode "
@@ -100,7 +100,7 @@ PROPS = {
     },
     "C14": {
         "level": EXPL,
-        "plan": [{"engine": "timers", "timeout": T_SIM}],
+        "plan": [{"engine": "timers", "perturb": True, "perturb_mode": "1", "perturb_scale": 0.5, "timeout": T_SIM}],
         "rule": "programs over {arm(d), stop, yield, quiescence wait, sleep} issued through the verif timer wrappers on 1..64 real connections per bubble "
                 "(GOMAXPROCS 1..8), each parked in the CMI wait state where a timeout is visible as an error report; the harness model knows when the most "
                 "recently armed, unstopped timer is due (virtual time, exact); plus protocol flows with zero-delay answers followed by 15 idle minutes "
@@ -110,7 +110,7 @@ PROPS = {
     },
     "C13": {
         "level": FAULT,
-        "plan": [{"engine": "wsconn", "timeout": T_SIM}],
+        "plan": [{"engine": "wsconn", "perturb": True, "perturb_mode": "1", "perturb_scale": 0.3, "timeout": T_SIM}],
         "rule": "real ws.WebsocketConnection on a gorilla conn (client- and server-side variants) over a fault-injecting net.Conn on a net.Pipe, raw websocket "
                 "peer with its own frame codec, synctest bubble (virtual ping/pong/write deadlines); sessions of 0..8 in/out messages and ping rounds with: a failure "
                 "at the k-th read / k-th write (error, EOF, short write) for k over the session, peer close frames (no code, 1000, 1001, 4001, 4452, 4500, random), peer EOF, "
@@ -123,7 +123,7 @@ PROPS = {
     },
     "C12": {
         "level": EXPL,
-        "plan": [{"engine": "wsconn", "timeout": T_SIM}],
+        "plan": [{"engine": "wsconn", "perturb": True, "perturb_mode": "sleep", "perturb_scale": 0.5, "timeout": T_SIM}],
         "rule": "real time: 1..32 writer goroutines x <=16 unique messages on one connection, peer reading promptly / slowly / not at all (full queue), closing event "
                 "(local close with/without reason, peer close frame, peer EOF, failing k-th transport write, none) fired after a seeded number of accepted writes; every "
                 "write call is recorded (call/return on one monotonic clock, result, recovered panic, closed-flag seen before the call); oracle: no panic, no write parked "
@@ -135,7 +135,7 @@ PROPS = {
     },
     "C17": {
         "level": EXPL,
-        "plan": [{"engine": "mdnssim", "timeout": T_SIM}],
+        "plan": [{"engine": "mdnssim", "perturb": True, "perturb_mode": "1", "perturb_scale": 0.3, "timeout": T_SIM}],
         "rule": "real MdnsManager + real (not started) Hub + recording application in a synctest bubble; resolver event histories <= 40 over 1-5 services x 1-4 addresses "
                 "(IPv4, IPv6 global, IPv6 link-local, duplicates inside one event), adds, removes in Avahi and zeroconf shape, invalid records (each mandatory key missing, txtvers 2, "
                 "non-boolean register, own SKI, nil/empty map), bursts without settling so that report goroutines pile up, GOMAXPROCS 1/4; oracle: the manager's entries equal a "
@@ -157,7 +157,7 @@ PROPS = {
     },
     "C05": {
         "level": EXPL,
-        "plan": [{"engine": "hubnet", "timeout": {"quick": 900, "thorough": 5400}, "shards": 12}],
+        "plan": [{"engine": "hubnet", "perturb": True, "perturb_mode": "sleep", "perturb_scale": 0.5, "timeout": {"quick": 900, "thorough": 5400}, "shards": 12}],
         "rule": "real hubs on loopback TLS/websocket ports, each with the real MdnsManager behind a fake mDNS bus, per-(dialler,target) TCP proxies, recording echoing applications; dial back-off table set to 0-1/1-2/2-3 s; two mutually registering hubs: registration before/after Start, simultaneous registration (double connection), one-sided mDNS visibility, then 0-4 disturbances (DisconnectSKI by either or both sides, TCP cut, peer restart with same certificate and port, mDNS disappear/reappear) with seeded gaps; bounded progress oracle: within 60 s after the last disturbance both registries hold exactly one open completed connection to the other, both pairing details are 'completed', exactly one live TCP connection, stable for 1.2 s with no new dial, and a uniquely numbered payload echoes in both directions; a run still dialling at the watchdog is inconclusive; distinct = (registration timing, simultaneity, visibility, disturbance list)",
         "assumptions": ['two hubs, loopback only; liveness decided as bounded progress (60 s watchdog)', 'peer restart = Shutdown + new hub in the same process'],
         "floors": {'evaluations': 30, 'classes': 20, 'counters': {'hubnet:converged': 25}},
@@ -185,7 +185,7 @@ PROPS = {
     },
     "C20": {
         "level": EXPL,
-        "plan": [{"engine": "hubnet", "timeout": {"quick": 1200, "thorough": 7200}, "shards": 12, "env": {"VERIF_SCALE_OTHERS": "0.25"}},
+        "plan": [{"engine": "hubnet", "perturb": True, "perturb_mode": "sleep", "perturb_scale": 0.5, "timeout": {"quick": 1200, "thorough": 7200}, "shards": 12, "env": {"VERIF_SCALE_OTHERS": "0.25"}},
                  {"engine": "wsconn", "timeout": T_SIM, "env": {"VERIF_SCALE": "0.3"}},
                  {"engine": "shipsim2", "timeout": T_SIM, "env": {"VERIF_SCALE": "0.3"}},
                  {"engine": "mdnssim", "timeout": T_SIM, "env": {"VERIF_SCALE": "0.3"}},
@@ -208,7 +208,7 @@ PROPS = {
     },
     "C18": {
         "level": EXPL,
-        "plan": [{"engine": "hubnet", "timeout": {"quick": 900, "thorough": 5400}, "shards": 12}],
+        "plan": [{"engine": "hubnet", "perturb": True, "perturb_mode": "sleep", "perturb_scale": 0.5, "timeout": {"quick": 900, "thorough": 5400}, "shards": 12}],
         "rule": "real hub pairs (see C05) through success, reconnects, disconnects, restarts; at the settled point (900 ms after convergence, > the 500 ms notification delay) the state of the last "
                 "ServicePairingDetailUpdate per SKI must equal PairingDetailForSki; distinct = delivered notification sequences",
         "floors": {"evaluations": 30, "classes": 20},
